@@ -148,7 +148,10 @@ func (db *PreparedStmtDB) prepare(ctx context.Context, conn ConnPool, isTransact
 		cacheStmt.prepareErr = err
 		simhook.Yield("prepare:failed")
 		db.Mux.Lock()
-		delete(db.Stmts, query)
+		// only remove our own in-progress entry, not one that replaced it meanwhile
+		if cur, ok := db.Stmts[query]; ok && cur == &cacheStmt {
+			delete(db.Stmts, query)
+		}
 		db.Mux.Unlock()
 		return Stmt{}, err
 	}
@@ -159,6 +162,15 @@ func (db *PreparedStmtDB) prepare(ctx context.Context, conn ConnPool, isTransact
 	db.Mux.Unlock()
 
 	return cacheStmt, nil
+}
+
+// evict removes the cache entry for query if it still holds stmt; an entry
+// that replaced it meanwhile (after a Reset or a re-preparation) is kept.
+// The caller holds db.Mux.
+func (db *PreparedStmtDB) evict(query string, stmt Stmt) {
+	if cur, ok := db.Stmts[query]; ok && cur.Stmt == stmt.Stmt {
+		delete(db.Stmts, query)
+	}
 }
 
 func (db *PreparedStmtDB) BeginTx(ctx context.Context, opt *sql.TxOptions) (ConnPool, error) {
@@ -192,7 +204,7 @@ func (db *PreparedStmtDB) ExecContext(ctx context.Context, query string, args ..
 			db.Mux.Lock()
 			defer db.Mux.Unlock()
 			go stmt.Close()
-			delete(db.Stmts, query)
+			db.evict(query, stmt)
 		}
 	}
 	return result, err
@@ -209,7 +221,7 @@ func (db *PreparedStmtDB) QueryContext(ctx context.Context, query string, args .
 			defer db.Mux.Unlock()
 
 			go stmt.Close()
-			delete(db.Stmts, query)
+			db.evict(query, stmt)
 		}
 	}
 	return rows, err
@@ -266,7 +278,7 @@ func (tx *PreparedStmtTX) ExecContext(ctx context.Context, query string, args ..
 			defer tx.PreparedStmtDB.Mux.Unlock()
 
 			go stmt.Close()
-			delete(tx.PreparedStmtDB.Stmts, query)
+			tx.PreparedStmtDB.evict(query, stmt)
 		}
 	}
 	return result, err
@@ -283,7 +295,7 @@ func (tx *PreparedStmtTX) QueryContext(ctx context.Context, query string, args .
 			defer tx.PreparedStmtDB.Mux.Unlock()
 
 			go stmt.Close()
-			delete(tx.PreparedStmtDB.Stmts, query)
+			tx.PreparedStmtDB.evict(query, stmt)
 		}
 	}
 	return rows, err
